@@ -130,6 +130,13 @@ def impl_direct(case):
     for hi, h in enumerate(case["haps"]):
         single = hp.data[h["id"]].transform(g)
         out.append({"single": np.asarray(single).astype(bool).tolist(), "set": np.asarray(r.data[:, hi, :]).astype(bool).tolist()})
+    # the same Haplotypes object asked again, for genotypes that hold the same calls under another numbering of the alleles (every
+    # variant lists its alleles in reverse order, as a second file of the same cohort may): the answer is about alleles, not codes
+    case2 = {**case, "variants": [{**v, "alleles": v["alleles"][::-1]} for v in case["variants"]],
+             "data": [[[len(case["variants"][j]["alleles"]) - 1 - a for a in cell] for j, cell in enumerate(row)] for row in case["data"]]}
+    g2, _ = build_objects(case2, case["with_anc"])
+    r2 = hp.transform(g2)
+    again = [np.asarray(r2.data[:, hi, :]).astype(bool).tolist() for hi in range(len(case["haps"]))]
     # a haplotype object that was edited and used in between (its variant list cut to the first variant, transformed, restored)
     # answers for the variants it lists now, as a new object with the same lines would
     edited = []
@@ -142,7 +149,7 @@ def impl_direct(case):
             obj.transform(g)
             obj.variants = full
         edited.append(np.asarray(obj.transform(g)).astype(bool).tolist())
-    return {"haps": out, "records": rec, "single_after_edit": edited}
+    return {"haps": out, "records": rec, "single_after_edit": edited, "set_other_allele_numbering": again}
 
 
 def model_req_direct(case):
@@ -174,7 +181,9 @@ def equal_direct(a, b):
         return [h["single"] for h in a["haps"]] == [h["single"] for h in b["haps"]]
     if "single_after_edit" in a and a["single_after_edit"] != [h["single"] for h in b["haps"]]:
         return False
-    return C.canon({k: v for k, v in a.items() if k not in ("set_refused", "single_after_edit")}) == C.canon(b)
+    if "set_other_allele_numbering" in a and a["set_other_allele_numbering"] != [h["set"] for h in b["haps"]]:
+        return False
+    return C.canon({k: v for k, v in a.items() if k not in ("set_refused", "single_after_edit", "set_other_allele_numbering")}) == C.canon(b)
 
 
 def carries(case, h, s, k, with_anc):
@@ -191,6 +200,9 @@ def carries(case, h, s, k, with_anc):
 def oracle_direct(case, obs):
     if "error" in obs:
         return f"transform raised {obs}"
+    for hi, e in enumerate(obs.get("set_other_allele_numbering") or []):
+        if e != obs["haps"][hi]["set"]:
+            return f"haplotype {case['haps'][hi]['id']}: the same Haplotypes object, asked again for genotypes holding the same calls with every variant's alleles listed in reverse order, answers {e}; for the first genotypes it answered {obs['haps'][hi]['set']}"
     for hi, e in enumerate(obs.get("single_after_edit") or []):
         if e != obs["haps"][hi]["single"]:
             return f"haplotype {case['haps'][hi]['id']}: a new object whose variant list was cut to the first variant, transformed and restored answers {e}; the object that was never edited answers {obs['haps'][hi]['single']}"
